@@ -195,7 +195,7 @@ RefFromNamed(named, x64, promote) ==     \* named: function component name -> le
 TreeDefs == {"leaf", "pair", "list2", "dict_list3"}
 NLeaves(def) == CASE def = "leaf" -> 1 [] def \in {"pair", "list2"} -> 2 [] def = "dict_list3" -> 3
 Tree(def, F(_)) == [def |-> def, leaves |-> [j \in 1..NLeaves(def) |-> F(j)]]
-LeafShape(j) == CASE j = 1 -> <<2>> [] j = 2 -> <<1>> [] j = 3 -> <<2, 2>>
+LeafShape(j) == CASE j = 1 -> <<2>> [] j = 2 -> <<1>> [] j = 3 -> <<2>>     \* leaves 1 and 3: same shape, any two dtypes
 OkT(t) == [err |-> FALSE, t |-> t]
 RefPromote(t, x64) == LET dt == Canon(JoinSeq([j \in 1..Len(t.leaves) |-> t.leaves[j].dt]), x64)
                       IN OkT(Tree(t.def, LAMBDA j : CastLeaf(t.leaves[j], dt)))
